@@ -7,6 +7,7 @@ C07 development).
 import Rpft.Props.C07
 import Rpft.Lemmas.RowStar
 import Rpft.Lemmas.RowPos
+import Rpft.Lemmas.RowPerm
 set_option linter.unusedSimpArgs false
 set_option linter.unusedVariables false
 namespace Rpft.Props.C09
@@ -299,5 +300,63 @@ example :
     readsAs (plainTop kwSub) "x\\|y|5".toList
       (.model [("word".toList, .str "x|y".toList), ("number".toList, .int 5)]) = true ∧
     Unambiguous kwSub ["x|y".toList, "5".toList] = true := by decide +kernel
+
+/-! ### column order -/
+
+/-- the row value, or nothing when the code raises (exception classes are not compared) -/
+def toOpt : Except Err Val → Option Val
+  | .ok v => some v
+  | .error _ => none
+
+theorem parseRow_obs (sch : Schema) (data : List (Str × Str)) (es : List (Str × ColVal))
+    (h : rowEntries sch data = .ok es) : toOpt (parseRow sch data) = parseEntries sch.top es := by
+  simp only [parseRow, h, parseEntries]
+  cases buildTree sch.top es with
+  | error e => rfl
+  | ok t => simp only; cases finish sch.top t <;> rfl
+
+/-- **Column permutation**, for every schema (with or without header remaps, `*` columns
+and context remap already applied): reordering the entries of a row by swaps of adjacent
+entries that belong to different top-level fields — i.e. any permutation that keeps the
+relative order of the entries of each field — does not change the parsed row.  Frame
+lemma of `find_entry` (`parseEntry_eff`): an entry reads and writes only the dictionary
+slot of its own top-level field. -/
+theorem column_perm (fs : List Field) (h2f f2h : List (Str × Str))
+    {cols cols' : List (Str × ColVal)} (h : FieldPerm h2f cols cols') :
+    parseEntries (.model fs h2f f2h) cols = parseEntries (.model fs h2f f2h) cols' :=
+  column_perm_entries fs h2f f2h h
+
+/-- the same on `parse_row` itself -/
+theorem column_perm_parseRow (sch : Schema) (fs : List Field) (h2f f2h : List (Str × Str))
+    (htop : sch.top = .model fs h2f f2h) (d d' : List (Str × Str)) (es es' : List (Str × ColVal))
+    (he : rowEntries sch d = .ok es) (he' : rowEntries sch d' = .ok es')
+    (h : FieldPerm h2f es es') : toOpt (parseRow sch d) = toOpt (parseRow sch d') := by
+  rw [parseRow_obs sch d es he, parseRow_obs sch d' es' he', htop]
+  exact column_perm fs h2f f2h h
+
+def exPerm : List Field :=
+  [("a".toList, .str, some (.str [])), ("xs".toList, .list .str, some (.list [])),
+   ("b".toList, .int, some (.int 0))]
+
+/-- non-vacuity: `a, xs.1, xs.2, b` reordered to `xs.1, b, xs.2, a` (the two `xs` columns keep
+their order) is a `FieldPerm`, and both parse -/
+example : FieldPerm []
+    [("a".toList, Sum.inl "x".toList), ("xs.1".toList, Sum.inl "p".toList),
+     ("xs.2".toList, Sum.inl "q".toList), ("b".toList, Sum.inl "5".toList)]
+    [("xs.1".toList, Sum.inl "p".toList), ("b".toList, Sum.inl "5".toList),
+     ("xs.2".toList, Sum.inl "q".toList), ("a".toList, Sum.inl "x".toList)] := by
+  refine .trans (.swap [] _ _ _ (by decide)) ?_
+  refine .trans (.swap [_] _ _ _ (by decide)) ?_
+  refine .trans (.swap [_, _] _ _ _ (by decide)) ?_
+  exact .swap [_] _ _ _ (by decide)
+
+/-- columns of ONE list field must stay in index order (the code asserts it): swapping `xs.1`
+and `xs.2` turns a row that parses into an error — "belong to different fields" is needed -/
+theorem column_perm_needs_different_fields :
+    (parseEntries (plainTop exPerm)
+      [("xs.1".toList, Sum.inl "p".toList), ("xs.2".toList, Sum.inl "q".toList)]).isSome = true ∧
+    (parseEntries (plainTop exPerm)
+      [("xs.2".toList, Sum.inl "q".toList), ("xs.1".toList, Sum.inl "p".toList)]).isSome = false := by
+  decide +kernel
 
 end Rpft.Props.C09
